@@ -148,8 +148,29 @@ class GitFix:
         self.sha = {r: wt.branch.lookup_bzr_revision_id(r)[0] for r in (r1, r2)}
         for n in ("S", "D"):
             wt.controldir.sprout(os.path.join(root, n))
+        # annotated tags: one tag object per (name, commit), present in both clones (refs are set per case)
+        from dulwich.objects import Commit, Tag
+        from dulwich.repo import Repo
+        self.tagobj = {}
+        for n in ("S", "D"):
+            r = Repo(os.path.join(root, n))
+            try:
+                for scheme in GIT_NAME_SCHEMES:
+                    for name in scheme.values():
+                        for revid, sha in self.sha.items():
+                            t = Tag()
+                            t.name = name.encode("utf-8")
+                            t.object = (Commit, sha)
+                            t.tagger = b"T <t@e.com>"
+                            t.tag_time = 1
+                            t.tag_timezone = 0
+                            t.message = b"annotated\n"
+                            r.object_store.add_object(t)
+                            self.tagobj[(name, revid)] = t.id
+            finally:
+                r.close()
 
-    def store(self, n, d):
+    def store(self, n, d, annotated=False):
         """Write refs/tags/* directly with dulwich (set-up only; the result is read back through breezy)."""
         from dulwich.repo import Repo
         from breezy.git.refs import tag_name_to_ref
@@ -159,7 +180,7 @@ class GitFix:
                 if ref.startswith(b"refs/tags/"):
                     del r.refs[ref]
             for name, revid in d.items():
-                r.refs[tag_name_to_ref(name)] = self.sha[revid]
+                r.refs[tag_name_to_ref(name)] = self.tagobj[(name, revid)] if annotated else self.sha[revid]
         finally:
             r.close()
 
@@ -186,6 +207,8 @@ def _run_merge(kind, c, idx, bz, gf):
         o.update(src=p.abs(s.get_tag_dict(), over), dst=p.abs(d.get_tag_dict(), over), master=empty)
     else:
         src_kind, dst_kind = kind.split("-")
+        annotated = src_kind == "gita"      # annotated tags (refs point to tag objects) on every git side
+        src_kind = "git" if annotated else src_kind
         if "git" in kind:
             p = Proj(GIT_NAME_SCHEMES[idx % len(GIT_NAME_SCHEMES)], gf.revs)
         else:
@@ -193,8 +216,14 @@ def _run_merge(kind, c, idx, bz, gf):
         sfix = gf if src_kind == "git" else bz
         dfix = gf if dst_kind == "git" else bz
         dname = "D1" if has_master else "D"
-        sfix.store("S", p.conc(c["src"]))
-        dfix.store(dname, p.conc(c["dst"]))
+        if src_kind == "git":
+            sfix.store("S", p.conc(c["src"]), annotated)
+        else:
+            sfix.store("S", p.conc(c["src"]))
+        if dst_kind == "git":
+            dfix.store(dname, p.conc(c["dst"]), annotated)
+        else:
+            dfix.store(dname, p.conc(c["dst"]))
         if has_master:
             bz.store("M", p.conc(c["master"]))
         s, d = sfix.open("S"), dfix.open(dname)
@@ -236,7 +265,7 @@ def _run_store(kind, c, idx, bz, gf, disk):
 
 def _replay(sub, chunk):
     bz = BzrFix()
-    need_git = any("git" in kind for kind, _, _ in chunk)
+    need_git = any("git" in kind for kind, _, _ in chunk)        # also "gita-*"
     need_disk = any(kind == "bzr-disk" for kind, _, _ in chunk)
     gf = GitFix(os.path.join(sub.workdir, "git")) if need_git else None
     disk = DiskBzrFix(os.path.join(sub.workdir, "bzr")) if need_disk else None
@@ -320,6 +349,8 @@ def run(ctx):
                     kinds.append("memory")
                 if ctx.rng.random() < p_git:
                     kinds += ["git-git", "bzr-git"]
+                if not ctx.quick and ctx.rng.random() < 0.25:
+                    kinds += ["gita-git", "gita-bzr"]        # annotated tags
             elif ctx.rng.random() < p_master:
                 kinds.append("bzr-bzr")
             if ctx.rng.random() < p_git and (ctx.quick or len(c["src"]) == (2 if c["hasMaster"] else 3)):
@@ -329,7 +360,8 @@ def run(ctx):
     ctx.rule("TLC enumerates all tag dictionaries over names x {absent, r1, r2}: (src, dst) over 3 names without master, "
              "(src, dst, master) over 2 names with a bound destination x ignore_master (thorough: + 3 names, "
              "selector=None), x overwrite x selector (None and %s); each case replayed on bzr->bzr (BasicTags, "
-             "re-opened branches), MemoryTags, git->git, bzr->git, git->bzr (quick: seeded sample - 1/3 of the plain "
+             "re-opened branches), MemoryTags, git->git, bzr->git, git->bzr, thorough also annotated git tags on a "
+             "quarter of the plain cases (quick: seeded sample - 1/3 of the plain "
              "and 1/4 of the master cases on bzr / memory, 1/16 on each git combination); Store/Load: "
              "every dictionary x %d hostile name schemes x revision-id schemes via _set_tag_dict and via set_tag, "
              "re-opened. Non-trivial = source not empty and different from a destination (merge) / dictionary not empty "
